@@ -37,6 +37,8 @@ type Case struct {
 	// SkipUnknown: compiled with the option that tolerates references into modules that are not loaded; every module
 	// is loaded here, so nothing changes: an unbound prefix is still an error
 	SkipUnknown bool `json:"skipunknown,omitempty"`
+	// CRLF: the files have CR LF line ends; the line an error names is still the line of the statement
+	CRLF bool `json:"crlf,omitempty"`
 }
 
 type exprSpec struct {
@@ -126,6 +128,7 @@ func genCase(t *rapid.T) Case {
 	c.SubClash = []int{0, 0, 1, 2}[rapid.IntRange(0, 3).Draw(t, "subclash")]
 	c.OwnClash = rapid.IntRange(0, 2).Draw(t, "ownclash") == 0
 	c.SkipUnknown = rapid.IntRange(0, 3).Draw(t, "skipunknown") == 0
+	c.CRLF = rapid.IntRange(0, 3).Draw(t, "crlf") == 0
 	return c
 }
 
@@ -375,7 +378,10 @@ func checkCase(c Case) fw.Outcome {
 		out.Skip = true
 		return out
 	}
-	copts := sgc.Opts{Features: sgc.AllFeatures{}, SkipUnknown: c.SkipUnknown}
+	copts := sgc.Opts{Features: sgc.AllFeatures{}, SkipUnknown: c.SkipUnknown, CRLF: c.CRLF}
+	if c.CRLF {
+		out.Labels = append(out.Labels, "crlf")
+	}
 	if c.Placement == "deviate-add-must-hidden" {
 		copts.Features = sgc.FeatureSet{}
 	}
